@@ -67,8 +67,8 @@ fn lines() {
             "updt" => updater::run_timed(&toks[1..]),
             "upd2" => updater::run_two(&toks[1..]),
             "shm" => engine::run(&toks[1..]),
-            "shmd" => {
-                engine::FAMILY.store(1, std::sync::atomic::Ordering::SeqCst);
+            "shmd" | "shmc" => {
+                engine::FAMILY.store(if toks[0] == "shmc" { 2 } else { 1 }, std::sync::atomic::Ordering::SeqCst);
                 let r = std::panic::catch_unwind(|| engine::run(&toks[1..]));
                 engine::FAMILY.store(0, std::sync::atomic::Ordering::SeqCst);
                 match r {
@@ -78,6 +78,7 @@ fn lines() {
             }
             "stall" => engine::run_stall(&toks[1..]),
             "seg" => segfile::run_seg(&toks[1..]),
+            "sgo" => segfile::run_sgo(&toks[1..]),
             "pol" => poller::run(&toks[1..]),
             "wld" => world::run(&toks[1..]),
             "thr" => {
